@@ -302,9 +302,14 @@ TABLE = {
         text="The Future and Mutex specifications carry an allocation allowance (Future: none; Mutex: only the coroutine frames the "
              "user creates); the replayers replace global operator new and report, in the projection compared after every step of every "
              "replayed schedule, the number of allocations made inside library calls (creating/resolving/awaiting by coroutine, blocking "
-             "thread, callback; up to three ready coroutines in the returned suspend point; lock, contention, hand-over).",
-        note="value type int; per-thread one-time construction of the thread-local ready queue excluded; suspend-point inline capacity and "
-             "generator stepping are covered by the C06/C13 replays when those are present",
+             "thread, callback; up to three ready coroutines in the returned suspend point; lock, contention, hand-over). The Future replays "
+             "run over two payload types (int, and a 64-byte tracked object whose copies are counted and whose integrity every reader "
+             "checks), rotate through the equivalent public entry points, and include the value resolver going through "
+             "promise::bind(args...)(). Stepping a synchronous generator in every access style is the allocation column of the Generator "
+             "replay (c13.alloc_replay); storage policies / suspend-point inline capacity are taken from the C19 / C06 replays where "
+             "those expose an allocation replay.",
+        note="value types int and a 64-byte trivially destructible object; per-thread one-time construction of the thread-local ready queue "
+             "excluded; more than three waiters released at once is outside the property's clause",
         design_ref="6/C20"),
     "C09": dict(
         claimed=True,
